@@ -24,6 +24,7 @@ type Plan struct {
 	Size     int    `json:"size,omitempty"`      // pad the result to this many bytes
 	Reverse  int    `json:"reverse,omitempty"`   // reverse calls to make before returning
 	RevBoom  bool   `json:"rev_boom,omitempty"`  // additionally reverse-call a client-side handler that panics
+	RevSlow  bool   `json:"rev_slow,omitempty"`  // additionally reverse-call a client-side handler that blocks until released
 	ReactMs  int    `json:"react_ms,omitempty"`  // time the handler keeps running after its ctx was cancelled
 
 	// subscriptions
@@ -59,6 +60,7 @@ type tokState struct {
 	ctxErrAt  []string
 	connType  jsonrpc.ConnectionType
 	revErrs   []string
+	inReverse bool
 	startedCh chan struct{}
 }
 
@@ -169,6 +171,12 @@ func (w *World) Sent(tok string) (int, bool) {
 	return s.sent, s.closedCh
 }
 
+func (w *World) InReverse(tok string) bool {
+	w.mu.Lock()
+	defer w.mu.Unlock()
+	return w.st(tok).inReverse
+}
+
 func (w *World) RevErrs(tok string) []string {
 	w.mu.Lock()
 	defer w.mu.Unlock()
@@ -234,6 +242,27 @@ func (a *TokAPI) body(ctx context.Context, tok string, plan Plan) (Result, error
 			continue
 		}
 		revs = append(revs, id)
+	}
+	if plan.RevSlow {
+		if rc, ok := jsonrpc.ExtractReverseClient[RevClient](ctx); ok {
+			a.W.mu.Lock()
+			s.inReverse = true
+			a.W.mu.Unlock()
+			id, err := rc.Slow(ctx, tok)
+			a.W.mu.Lock()
+			s.inReverse = false
+			if err != nil {
+				s.revErrs = append(s.revErrs, err.Error())
+			}
+			a.W.mu.Unlock()
+			if err != nil {
+				revs = append(revs, "!err")
+			} else {
+				revs = append(revs, id)
+			}
+		} else {
+			revs = append(revs, "!absent")
+		}
 	}
 	if plan.RevBoom {
 		if rc, ok := jsonrpc.ExtractReverseClient[RevClient](ctx); ok {
